@@ -305,8 +305,16 @@ class Popen(AgentExecutingComponent):
         self._watch_queue.put(task)
 
         # now that the task cancellation cb would succeed, let's make sure that
-        # no cancellation request sneaked in before the task got started
-        if self.is_canceled(task) is True:
+        # no cancellation request sneaked in before the task got started.
+        # NOTE: `is_canceled()` would publish the task dict (which at this
+        #       point holds the non-serializable `proc` handle) - so only
+        #       consult the cancel list here, `cancel_task()` does the rest.
+        with self._cancel_lock:
+            canceled = tid in self._cancel_list
+            if canceled:
+                self._cancel_list.remove(tid)
+
+        if canceled:
             self.cancel_task(task)
 
 
